@@ -2,7 +2,7 @@
 verbatim numbers, escape table, block-string character classes."""
 import ast
 
-from .. import nodeshape, shapes, lexrules
+from .. import nodeshape, shapes, lexrules, cfg
 from ..model import AnalysisError, own_nodes, norm_stmt
 
 PARSER = "py_gql.lang.parser"
@@ -19,6 +19,11 @@ def _consumes(expr):
         if _is_self_call(n) and (n.func.attr in CONSUMERS or n.func.attr.startswith("parse_")):
             return True
     return False
+
+
+def _single_defs(fi, name):
+    return [n for n in own_nodes(fi.node) if isinstance(n, ast.Assign) and any(
+        isinstance(t, ast.Name) and t.id == name for t in n.targets)]
 
 
 def check(prog, run):
@@ -59,40 +64,61 @@ def check(prog, run):
             continue
         r.instance("%s: %s loc=%s" % (c.fi.qualname, c.cls, ast.unparse(locv)))
         key = "%s:%s:loc(%s)" % (PARSER, c.fi.qualname, c.cls)
+        if isinstance(locv, ast.Name):
+            # loc computed into a local first: the evaluation point is that assignment
+            ldefs = _single_defs(c.fi, locv.id)
+            if len(ldefs) == 1:
+                locv = ldefs[0].value
         if not (_is_self_call(locv, {"_loc"}) and len(locv.args) == 1 and isinstance(locv.args[0], ast.Name)):
             run.report(r, key, c.fi.where(c.call), "loc of %s is not self._loc(<token variable>)" % c.cls)
             continue
         tok = locv.args[0].id
-        # keyword order: nothing consuming after loc=
-        names = [k.arg for k in c.call.keywords]
-        after = c.call.keywords[names.index("loc") + 1:]
-        for k in after:
-            if _consumes(k.value):
-                run.report(r, key + ":consumes-after-loc", c.fi.where(c.call),
-                           "%s= consumes tokens after loc= was evaluated: the span of %s ends too early" % (k.arg, c.cls))
         # binding of the token variable
-        binds = [n for n in own_nodes(c.fi.node) if isinstance(n, ast.Assign) and any(
-            isinstance(t, ast.Name) and t.id == tok for t in n.targets)]
-        if tok in c.fi.params:
-            continue
-        if len(binds) != 1:
-            run.report(r, key + ":start-binding", c.fi.where(c.call), "start token %s of %s is bound %d times" % (tok, c.cls, len(binds)))
-            continue
-        b = binds[0]
-        v = b.value
-        ok_form = _is_self_call(v, {"peek"}) and not v.args and not v.keywords
-        ok_form = ok_form or _is_self_call(v, {"expect", "advance", "expect_keyword"})
-        if not ok_form:
-            run.report(r, key + ":start-binding", c.fi.where(b), "start token of %s is bound by `%s`, not by peek()/expect()/advance()"
-                       % (c.cls, norm_stmt(b)))
-            continue
-        # no consumption lexically before the binding within the function
-        for n in own_nodes(c.fi.node):
-            if _is_self_call(n) and (n.func.attr in CONSUMERS or n.func.attr.startswith("parse_")) and n is not v:
-                if (n.lineno, n.col_offset) < (b.lineno, b.col_offset):
-                    run.report(r, key + ":consumes-before-start", c.fi.where(n),
-                               "`%s` consumes tokens before the start token of %s is captured: the span starts too late"
-                               % (norm_stmt(n), c.cls))
+        s_call = None
+        if tok not in c.fi.params:
+            binds = _single_defs(c.fi, tok)
+            if len(binds) != 1:
+                run.report(r, key + ":start-binding", c.fi.where(c.call), "start token %s of %s is bound %d times" % (tok, c.cls, len(binds)))
+                continue
+            b = binds[0]
+            v = b.value
+            ok_form = _is_self_call(v, {"peek"}) and not v.args and not v.keywords
+            ok_form = ok_form or _is_self_call(v, {"expect", "advance", "expect_keyword"})
+            if not ok_form:
+                run.report(r, key + ":start-binding", c.fi.where(b), "start token of %s is bound by `%s`, not by peek()/expect()/advance()"
+                           % (c.cls, norm_stmt(b)))
+                continue
+            s_call = v
+        # typestate over every path: (start captured, _loc evaluated and node not yet built)
+        bad = {}
+
+        def transfer(state, node, kind, s_call=s_call, l_call=locv, k_call=c.call, bad=bad):
+            if kind in ("def", "handler"):
+                return [state]
+            started, pending = state
+            for n in cfg._postorder(node):
+                if n is s_call:
+                    started = True
+                elif n is l_call:
+                    pending = True
+                elif n is k_call:
+                    pending = False
+                elif _is_self_call(n) and (n.func.attr in CONSUMERS or n.func.attr.startswith("parse_")):
+                    if not started:
+                        bad.setdefault("before", n)
+                    if pending:
+                        bad.setdefault("after", n)
+            return [(started, pending)]
+
+        cfg.Flow(transfer).run(c.fi.node, {(s_call is None, False)})
+        if "after" in bad:
+            run.report(r, key + ":consumes-after-loc", c.fi.where(bad["after"]),
+                       "`%s` consumes tokens after _loc(%s) was evaluated and before %s is built: the span of %s ends too early"
+                       % (norm_stmt(bad["after"]), tok, c.cls, c.cls))
+        if "before" in bad:
+            run.report(r, key + ":consumes-before-start", c.fi.where(bad["before"]),
+                       "`%s` consumes tokens before the start token of %s is captured: the span starts too late"
+                       % (norm_stmt(bad["before"]), c.cls))
     init = parser.find_method("__init__")
     lam = None
     for n in ast.walk(init.node):
@@ -229,6 +255,9 @@ def check(prog, run):
     okc = False
     for c0 in conv:
         a = c0.args[0] if c0.args else None
+        if isinstance(a, ast.Name):
+            adefs = _single_defs(eu, a.id)
+            a = adefs[0].value if len(adefs) == 1 else a
         if isinstance(a, ast.Call) and isinstance(a.func, ast.Name) and a.func.id == "int" and len(a.args) == 2 \
                 and isinstance(a.args[1], ast.Constant) and a.args[1].value == 16:
             okc = True
